@@ -59,6 +59,7 @@ class Contract:
         self.call_hints = {}
         self.decreases = None
         self.ghost_locals = {}
+        self.callables = {}
 
 
 class Ghost:
@@ -72,6 +73,7 @@ class Ghost:
         self.least_fixpoint = False
         self.bound = {}
         self.heap = False
+        self.typed_result = False
         self.file = None
 
 
@@ -87,6 +89,7 @@ class Sidecar:
         self.files = []
         self.classdecl = {}       # abstract classes declared in the sidecar: name -> [bases]
         self.consts = {}
+        self.dict_records = set()
 
 
 def _s(node):
@@ -150,6 +153,9 @@ def _parse_clauses(body, c, sc, loop=None):
             loop.body_hints.extend(a)
         elif fn == 'end_hint':
             loop.end_hints.extend(a)
+        elif fn == 'callable':
+            for k, v in _kw(call).items():
+                c.callables[k] = _s(v)
         elif fn == 'ghost_local':
             for k, v in _kw(call).items():
                 c.ghost_locals[k] = _s(v)
@@ -196,6 +202,9 @@ def load_file(path, sc):
                 sc.globals[_s(call.args[0])] = _s(call.args[1])
             elif fn == 'declare_class':
                 sc.classdecl[_s(call.args[0])] = [_s(x) for x in call.args[1:]]
+            elif fn == 'dict_record':
+                sc.dict_records.add(_s(call.args[0]))
+                sc.classdecl.setdefault(_s(call.args[0]), [])
             elif fn == 'const':
                 sc.consts[_s(call.args[0])] = _s(call.args[1])
             else:
@@ -212,6 +221,7 @@ def load_file(path, sc):
                 g.ret = _s(st.returns) if st.returns else 'Bool'
                 g.least_fixpoint = bool(_s(kws['least_fixpoint'])) if 'least_fixpoint' in kws else False
                 g.heap = bool(_s(kws['heap'])) if 'heap' in kws else False
+                g.typed_result = bool(_s(kws['typed_result'])) if 'typed_result' in kws else False
                 for b in st.body:
                     if isinstance(b, ast.Expr) and isinstance(b.value, ast.Constant):
                         continue
